@@ -28,7 +28,9 @@ import (
 	"github.com/idena-network/idena-go/common"
 	"github.com/idena-network/idena-go/core/state"
 	"github.com/idena-network/idena-go/core/validators"
+	"github.com/idena-network/idena-go/core/appstate"
 	"github.com/idena-network/idena-go/crypto"
+	"github.com/idena-network/idena-go/stats/collector"
 
 	"verifharness/internal/chainfx"
 	"verifharness/internal/hx"
@@ -54,6 +56,9 @@ type c10hrun struct {
 	byNat  map[uint32]common.Address
 	lean   bool // addresses embed injectively into uint32: emit model lines
 	failed map[string]bool
+	chk    *appstate.AppState // long-lived check state, maintained the way the sync / fork-validation paths do
+	prev   *types.Header
+	kills  int
 }
 
 func (x *c10hrun) fail(sig, detail string) {
@@ -316,6 +321,22 @@ func (x *c10hrun) offer(b int) {
 		}
 		return
 	}
+	// directed: a go-online request left pending, then the same identity kills itself before the next status-switch
+	// block (StatusSwitchRange = 3): both txs go into the next block (height % 3 == 1) or the kill one block later
+	if next := n.Chain.Head.Height() + 1; next%3 == 1 && x.kills < 3 && b > 3 && r.Intn(3) == 0 {
+		for _, i := range r.Perm(nU) {
+			i++
+			a := w.Addrs[i]
+			ids := n.App.State.GetIdentityState(a)
+			if (ids == state.Verified || ids == state.Human) && !n.App.ValidatorsCache.IsOnlineIdentity(a) && !n.App.ValidatorsCache.IsPool(a) &&
+				!n.App.State.HasStatusSwitchAddresses(a) && n.App.State.Delegatee(a) == nil && n.App.State.DelegationSwitch(a) == nil {
+				send(i, "online-then-self-kill:online", chainfx.OnlineTx(true))
+				send(i, "online-then-self-kill:kill", &types.Transaction{Type: types.KillTx})
+				x.kills++
+				break
+			}
+		}
+	}
 	for j, k := 0, r.Intn(4); j < k; j++ {
 		i := 1 + r.Intn(nU)
 		switch r.Intn(10) {
@@ -385,6 +406,7 @@ func (x *c10hrun) check(blk *types.Block, fresh *validators.ValidatorsCache, tre
 		addrs = append(addrs, a)
 	}
 	sort.Slice(addrs, func(i, j int) bool { return strings.Compare(string(addrs[i][:]), string(addrs[j][:])) < 0 })
+	x.checkReused(blk, addrs)
 	a1 := c10hSnapshot(n.App.ValidatorsCache, addrs, n.Chain.Head)
 	a2 := c10hSnapshot(fresh, addrs, n.Chain.Head)
 	x.c.Hit("oracle:incremental-vs-rebuild evaluated")
@@ -431,6 +453,80 @@ func (x *c10hrun) check(blk *types.Block, fresh *validators.ValidatorsCache, tre
 	x.c.Hit("oracle:registry-vs-ledger evaluated")
 }
 
+// step: one block.  Even seeds take the full-sync path of protocol/full.go (AddBlock(block, checkState) on the
+// long-lived check state, then checkState.FinalizePrecommit(block)); odd seeds insert normally and then treat the
+// block as ValidateSubChain does (validateBlock on the long-lived check state, FinalizePrecommit).
+func (x *c10hrun) step(b int) (*types.Block, error) {
+	h, n := x.h, x.h.N
+	h.OfferTxs(b)
+	chainfx.Advance(h.O.BlockStep)
+	if !n.IsEligibleProposer() {
+		return nil, chainfx.ErrNotEligible
+	}
+	p, err := n.Propose()
+	if err != nil {
+		return nil, err
+	}
+	blk := p.Block
+	syncPath := x.chk != nil && x.cs.Seed%2 == 0
+	guard := func(f func() error) (err error) {
+		defer func() {
+			if r := recover(); r != nil {
+				err = fmt.Errorf("panic: %v", r)
+			}
+		}()
+		return f()
+	}
+	dropChk := func(err error) {
+		x.fail("C10:reused-check-state-rejects-canonical-block", fmt.Sprintf("height %d: %v", blk.Height(), err))
+		x.chk = nil
+	}
+	if x.chk != nil && !syncPath {
+		// as ValidateSubChain: the block is validated on the long-lived check state against the previous header
+		// (before the ceremony object sees the block, as on a node that validates a fork)
+		if err := guard(func() error { return n.Chain.VerifValidateBlockOn(x.chk, blk, x.prev) }); err != nil {
+			dropChk(err)
+		}
+	}
+	var cs *appstate.AppState
+	if syncPath {
+		cs = x.chk
+	}
+	if err := guard(func() error { return n.Chain.AddBlock(blk, cs, collector.NewStatsCollector()) }); err != nil {
+		return nil, fmt.Errorf("own block rejected (check state reused=%v): %w", syncPath, err)
+	}
+	if n.VC != nil {
+		n.VC.FxOnBlock(blk)
+	}
+	h.Height = int(blk.Height())
+	if x.chk != nil {
+		if err := guard(func() error { return x.chk.FinalizePrecommit(blk) }); err != nil {
+			dropChk(err)
+		}
+		x.prev = blk.Header
+	}
+	return blk, nil
+}
+
+// the long-lived check state must carry the same validator view as a rebuild from its own stored state and as the node
+func (x *c10hrun) checkReused(blk *types.Block, addrs []common.Address) {
+	if x.chk == nil {
+		return
+	}
+	n := x.h.N
+	re := validators.NewValidatorsCache(x.chk.IdentityState, x.chk.State.GodAddress())
+	re.Load()
+	a0 := c10hSnapshot(x.chk.ValidatorsCache, addrs, n.Chain.Head)
+	a1 := c10hSnapshot(re, addrs, n.Chain.Head)
+	a2 := c10hSnapshot(n.App.ValidatorsCache, addrs, n.Chain.Head)
+	x.c.Hit("oracle:reused-check-state evaluated")
+	if a0 != a1 {
+		x.fail("C10:reused-check-state-cache-stale", fmt.Sprintf("height %d flags %v: validator view of the reused check state differs from a rebuild of its own stored state:\n  check state %s\n  rebuilt     %s", blk.Height(), blk.Header.Flags(), a0, a1))
+	} else if a0 != a2 {
+		x.fail("C10:reused-check-state-cache-stale:vs-node", fmt.Sprintf("height %d flags %v: validator view of the reused check state differs from the node's:\n  check state %s\n  node        %s", blk.Height(), blk.Header.Flags(), a0, a2))
+	}
+}
+
 func c10hOpts(cs c10hcase) chainfx.HistoryOpts {
 	o := chainfx.HistoryOpts{Blocks: cs.Blocks, ShortEpochs: true, TxPerBlock: 2, WithFlips: cs.Seed%3 != 0}
 	if cs.Script == "identityless-pool" {
@@ -472,9 +568,14 @@ func c10hRun(c *hx.Ctx, cs c10hcase) error {
 	x.line("load inc", "ok")
 	prevTree := tree
 	prevPools := map[common.Address]bool{}
+	if chk, err := h.N.App.ForCheckWithOverwrite(h.N.Chain.Head.Height()); err == nil {
+		x.chk, x.prev = chk, h.N.Chain.Head
+	} else {
+		x.fail("C10H:history-broken", "ForCheckWithOverwrite: "+err.Error())
+	}
 	for b := 1; b <= cs.Blocks; b++ {
 		x.offer(b)
-		blk, err := h.Step(b)
+		blk, err := x.step(b)
 		if err == chainfx.ErrNotEligible {
 			c.Hit("history-ended:proposer-not-eligible")
 			break
